@@ -3,9 +3,10 @@
    Factor overwrites L and U (C03): the outcome of Solve (status, final time, statistics, every
    call made to the policies, resulting concentrations) is the same for two States that agree on
    the concentrations, whatever their Jacobian, L/U, Yn and forcing scratch held.
-   The Rosenbrock analogue (stage vectors are written before they are read) is checked bit for
-   bit on the implementation with poisoned scratch; it is not yet a theorem. *)
-From Model Require Import Base Rosenbrock BackwardEulerM IntegratorProofs.
+   The same for the Rosenbrock integrator (every stage vector is written before it is read, for every coefficient
+   table: any number of stages, any new-function pattern), for two States whose stage-vector lists have the same
+   length (the shape of the scratch is fixed by the solver that created the State). *)
+From Model Require Import Base Rosenbrock BackwardEulerM IntegratorProofs RosScratchProofs.
 Local Open Scope nat_scope.
 
 Theorem C11_backward_euler_ignores_scratch :
@@ -23,3 +24,20 @@ Theorem C11_backward_euler_ignores_scratch :
       br_trace r = br_trace r' /\ bYn1 (br_s r) = bYn1 (br_s r').
 Proof. exact be_scratch_irrelevant. Qed.
 Print Assumptions C11_backward_euler_ignores_scratch.
+
+Theorem C11_rosenbrock_ignores_scratch :
+  forall (N : Num) ltb leb nabs isnan isinf is_zero absorbed pow_inv ten delta_min
+         (V M F : Type) vaxpy vzero mzero add_diag forcing negjac in_place factor_sep solve_sep factor_ip solve_ip nerr
+         (p : params N),
+    (forall v v', vzero v = vzero v') -> (forall m m', mzero m = mzero m') ->
+    (forall m lu lu', factor_sep m lu = factor_sep m lu') ->
+    forall fuel time_step (s s' : rstate V M F),
+      sY s = sY s' -> length (sK s) = length (sK s') ->
+      let r := ros_solve N ltb leb nabs isnan isinf is_zero absorbed pow_inv ten delta_min V M F vaxpy vzero mzero
+                         add_diag forcing negjac in_place factor_sep solve_sep factor_ip solve_ip nerr p fuel time_step s in
+      let r' := ros_solve N ltb leb nabs isnan isinf is_zero absorbed pow_inv ten delta_min V M F vaxpy vzero mzero
+                          add_diag forcing negjac in_place factor_sep solve_sep factor_ip solve_ip nerr p fuel time_step s' in
+      r_state r = r_state r' /\ r_final_time r = r_final_time r' /\ r_stats r = r_stats r' /\
+      r_trace r = r_trace r' /\ sY (r_s r) = sY (r_s r').
+Proof. exact ros_scratch_irrelevant. Qed.
+Print Assumptions C11_rosenbrock_ignores_scratch.
